@@ -644,6 +644,17 @@ def obligations(tier, seed):
             if v == 1 and op in ('store_tile', 'load_tile', 'is_cached'):
                 continue
             specs.append(spec(MOD, 'CompactRouting', 'compact-routing/v%d/%s' % (v, op), cfg=dict(version=v, op=op), cost=8))
+    # inside one bundle: a store or remove of one slot leaves every other slot's index entry and record bytes alone, and the
+    # written slot reads back (the C19 byte-level step obligations; frame argument over the flush log of the real run)
+    for ver, func in (('v1', 'run_v1'), ('v2', 'run_v2')):
+        for op, part in (('remove', 'other-entry'), ('remove', 'other-bytes'), ('store', 'other-entry'), ('store', 'readback')):
+            if tier != 'thorough' and (op, part) == ('store', 'readback'):
+                continue
+            a = dict(op=op, part=part)
+            if op == 'store':
+                a['n'] = 3
+            specs.append(dict(name='compact-slot-independence/%s/%s/%s' % (ver, op, part), module='props.C19_bundle', func=func, kind='holds',
+                              args=a, cost=40))
     for kind in ('mbtiles', 'geopackage'):
         for n in ((1, 2, 3) if tier == 'thorough' else (1, 2)):
             specs.append(spec(MOD, 'SqliteBulk', 'sqlite-bulk/%s/n%d' % (kind, n), cfg=dict(kind=kind, n=n), cost=15 * n))
